@@ -4,7 +4,9 @@ Property theorems only; helper lemmas live in `Lemmas/Pixels.lean`.
 
 Pixel content is universally quantified (`α`: 8-bit samples, `σ`: stored samples);
 PIL's `convert`, `ImageChops.invert`, the depth encoding and the matte removal are
-parameters with their laws as hypotheses (`Pil.Lawful`, `Px.Lawful`).
+parameters with their laws as hypotheses (`Pil.Lawful`; `Px.LawfulAt d`: the sample laws at the depth
+of the document, which `Px.Lawful` gives for every depth). `Props/C07Samples.lean` discharges both
+for the arithmetic the code performs.
 -/
 import PsdVerif.Model.Pixels
 import PsdVerif.Lemmas.Pixels
@@ -34,7 +36,7 @@ variable {α σ : Type}
 /-- For every image of mode 1, L, LA, RGB or CMYK the exported document is the source
 (bitmap sources after their documented conversion to grayscale), band for band, with its
 transparency (LA) and with an even number of inversions (CMYK). -/
-theorem doc_import_export_partial (C : Pil α) (hC : C.Lawful) (P : Px α σ) (hP : P.Lawful)
+theorem doc_import_export_partial (C : Pil α) (hC : C.Lawful) (P : Px α σ) (hP : P.LawfulAt 8)
     (img : Image α) (hwf : img.WF) (hm : img.mode ≠ .RGBA) :
     exportDocPil P (docImport C P img).1 (docImport C P img).2 = .ok (some (normalise C img)) := by
   by_cases h1 : img.mode = .one
@@ -50,7 +52,7 @@ example : ∃ img : Image Nat, img.WF ∧ img.mode ≠ .RGBA :=
 
 /-- RGBA: what comes back is the source with the white background "removed" from colour
 planes that `frompil` stored as they came. -/
-theorem doc_import_export_rgba (C : Pil α) (P : Px α σ) (hP : P.Lawful) (w h : Nat) (r g b a : List α) :
+theorem doc_import_export_rgba (C : Pil α) (P : Px α σ) (hP : P.LawfulAt 8) (w h : Nat) (r g b a : List α) :
     let img : Image α := { mode := .RGBA, width := w, height := h, bands := [r, g, b, a] }
     exportDocPil P (docImport C P img).1 (docImport C P img).2 = .ok (some
       { img with bands := [List.zipWith P.unmatte r a, List.zipWith P.unmatte g a,
@@ -59,7 +61,7 @@ theorem doc_import_export_rgba (C : Pil α) (P : Px α σ) (hP : P.Lawful) (w h 
 
 /-- … hence exact precisely on pixels whose alpha leaves the colour alone
 (with the real arithmetic: alpha 0 or 255). -/
-theorem doc_import_export_rgba_partial (C : Pil α) (P : Px α σ) (hP : P.Lawful) (w h : Nat)
+theorem doc_import_export_rgba_partial (C : Pil α) (P : Px α σ) (hP : P.LawfulAt 8) (w h : Nat)
     (r g b a : List α)
     (hu : ∀ c ∈ [r, g, b], List.zipWith P.unmatte c a = c) :
     let img : Image α := { mode := .RGBA, width := w, height := h, bands := [r, g, b, a] }
@@ -97,8 +99,8 @@ without an alpha channel in the document, every depth and offset: the layer come
 its offset; its colour bands are the bands of `img.convert(doc.pil_mode)`; its transparency is
 the source alpha when the image has one and opaque otherwise. (PIL has no CMYK mode with
 alpha: there the transparency is what `topil(channel=-1)` returns.) -/
-theorem layer_import_export (C : Pil α) (hC : C.Lawful) (P : Px α σ) (hP : P.Lawful)
-    (img : Image α) (hwf : img.WF) (hdr : Header) (hb : hdr.cmode ≠ .bitmap) (top left : Int) :
+theorem layer_import_export (C : Pil α) (hC : C.Lawful) (P : Px α σ)
+    (img : Image α) (hwf : img.WF) (hdr : Header) (hP : P.LawfulAt hdr.depth) (hb : hdr.cmode ≠ .bitmap) (top left : Int) :
     let src := normalise C img
     let alpha := (srcAlpha src).getD (List.replicate (img.width * img.height) P.full)
     ∃ l, layerImport C P img hdr top left = .ok l ∧
@@ -132,7 +134,7 @@ theorem layer_import_export (C : Pil α) (hC : C.Lawful) (P : Px α σ) (hP : P.
           | Except.error e => Except.error e
           | Except.ok alpha => layerOfConverted P alpha (C.conv hdr.pilMode src) hdr.depth top left) := rfl
     rw [hdef, ha]
-  have hj := layer_converted P hP (srcAlpha src) (C.conv hdr.pilMode src) (hC.conv_wf _ _ hsrc) hdr hb
+  have hj := layer_converted P hdr hP (srcAlpha src) (C.conv hdr.pilMode src) (hC.conv_wf _ _ hsrc) hb
     (decide (hdr.channels > (hdr.cmode.pilMode false).pilChannels))
     (by rw [hC.conv_mode]; rfl) top left
   rw [hC.conv_width, hC.conv_height, hsw, hsh] at hj
